@@ -92,3 +92,251 @@ Proof.
   exact (proj1 (exec_good _ _ _ _ _ _ E Hl (reachable_mixed_good s Hr) Hb)).
 Qed.
 Print Assumptions c01_no_fault_stops_it_mixed.
+
+(* ---- the closed loop for at-least-once: client + conforming broker + one FIFO connection ---- *)
+(* Additions for coq/props/C01.v — broker side for QoS 1 (closed loop at-least-once client +
+   connection + conforming broker, theories/AloWorld.v).  Needs, next to the existing imports
+   of props/C01.v:
+     From Coq Require Import ZArith List.
+     From MQ Require Import AdoptProofs ConnectProofs ResendOrder AloWorld.
+   (standalone here so that it can be compiled on its own:
+     coqc -Q theories MQ -Q gen MQG -Q props MQP -Q /verif/work/prover-alo-world SA
+          /verif/work/prover-alo-world/C01_additions.v) *)
+From Coq Require Import ZArith List.
+From MQ Require Import Session Outbound OutboundInv OutboundRefine SessionTheorems AdoptProofs
+  ConnectProofs ResendOrder AloWorld.
+Import ListNotations.
+Local Open Scope N_scope.
+
+(* ---- the tie of the world's client to the proved sender machine ---- *)
+
+(* Every step of the abstract sender machine (which every API call refines, OutboundRefine) is,
+   on the at-least-once numbers and the exchange queue, an accept / in-order PUBACK / submit /
+   termination step of the slim client or invisible (a failed Save is invisible, a failed
+   Delete is no step at all). *)
+Theorem c01_slim_client : forall st st', OInv' st -> ostep st st' ->
+  aslim st' = aslim st \/ alstep (aslim st) (aslim st').
+Proof. exact ostep_aslim. Qed.
+Print Assumptions c01_slim_client.
+
+(* Process stop + AdoptSession is a restart of the slim client: window kept, counters moved
+   down by a multiple of 2^14 (to 0 when nothing is pending), one fresh exchange per pending
+   message, everything counts as submitted (so the resend carries DUP). *)
+Theorem c01_slim_restart : forall st st',
+  OInv' st -> known_keys st -> markers_genuine st -> adopts st st' -> arestart (aslim st) (aslim st').
+Proof. exact adopts_aslim. Qed.
+Print Assumptions c01_slim_restart.
+
+(* The client part of every step of the closed world is such a step (or none). *)
+Theorem c01_world_client : forall w l w', AInv w -> astep w l w' ->
+  a_cl w' = a_cl w \/ alstep (a_cl w) (a_cl w') \/ arestart (a_cl w) (a_cl w').
+Proof. exact astep_client. Qed.
+Print Assumptions c01_world_client.
+
+(* The world's guard for a PUBACK is the guard of Session.on_puback. *)
+Theorem c01_world_puback_guard : forall c body, len body = 2 ->
+  (ack1_guard c body <-> u16 body = key1 (k_acked c) /\ 0 < len (k_q1 c)).
+Proof. exact world_guard_is_ack1_guard. Qed.
+Print Assumptions c01_world_puback_guard.
+
+(* ---- (a) nothing accepted is lost ---- *)
+
+(* the record of every unacknowledged accepted message is in the Persistence (via the tie) *)
+Theorem c01_slim_record_kept : forall st, OInv' st ->
+  forall n, l_acked (aslim st) <= n < l_acc (aslim st) ->
+    exists retain topic msg sq, holds (o_store st) (key1 n) (pub1_packet retain topic msg n) sq
+                                /\ sq <= o_rseq st.
+Proof. exact alo_record_kept. Qed.
+Print Assumptions c01_slim_record_kept.
+
+Theorem c01_world_invariant : forall w, areach w -> AInv w.
+Proof. exact aworld_inv. Qed.
+Print Assumptions c01_world_invariant.
+
+(* every message whose PUBACK the client applied was received and forwarded by the broker *)
+Theorem c01_acked_was_forwarded : forall w x, areach w -> x < a_base w + wK w -> In x (a_fwd w).
+Proof. exact acked_forwarded. Qed.
+Print Assumptions c01_acked_was_forwarded.
+
+Theorem c01_acked_was_forwarded_count : forall w x, areach w -> x < a_base w + wK w ->
+  (1 <= count_occ N.eq_dec (a_fwd w) x)%nat.
+Proof. exact acked_forwarded_count. Qed.
+Print Assumptions c01_acked_was_forwarded_count.
+
+Theorem c01_only_accepted_forwarded : forall w x, areach w -> In x (a_fwd w) -> x < a_base w + wA w.
+Proof. exact only_accepted_fwd. Qed.
+Print Assumptions c01_only_accepted_forwarded.
+
+Theorem c01_inflight_puback_forwarded : forall w id x, areach w ->
+  In (AAck id x) (a_b2c w) -> In x (a_fwd w).
+Proof. exact inflight_ack_forwarded. Qed.
+Print Assumptions c01_inflight_puback_forwarded.
+
+(* in absolute numbers neither end of the window ever moves back: no step (Break, failed
+   write, failed Save/Delete/Load, Close, Restart) drops an accepted message *)
+Theorem c01_accepted_never_dropped : forall w l w', AInv w -> astep w l w' ->
+  a_base w + wK w <= a_base w' + wK w' /\ a_base w + wA w <= a_base w' + wA w'.
+Proof. exact accepted_monotone. Qed.
+Print Assumptions c01_accepted_never_dropped.
+
+(* ... and the lower end moves only by the in-order PUBACK of a forwarded message *)
+Theorem c01_window_leaves_only_by_puback : forall w l w', AInv w -> astep w l w' ->
+  a_base w' + wK w' <> a_base w + wK w ->
+  l = ALClientAck /\ a_base w' = a_base w /\ wK w' = wK w + 1 /\ In (a_base w + wK w) (a_fwd w).
+Proof. exact acked_moves_only_by_ack. Qed.
+Print Assumptions c01_window_leaves_only_by_puback.
+
+Theorem c01_forwarded_stays : forall w l w' x, astep w l w' -> In x (a_fwd w) -> In x (a_fwd w').
+Proof. exact fwd_stable. Qed.
+Print Assumptions c01_forwarded_stays.
+
+Theorem c01_forwarded_only_by_publish : forall w l w', astep w l w' -> a_fwd w' <> a_fwd w ->
+  (exists d id x q, l = ALBroker /\ a_c2b w = APub d id x :: q /\ a_fwd w' = x :: a_fwd w)
+  \/ (exists j, l = ALReconnectFail /\ wK w <= j <= wA w /\
+        a_fwd w' = rev (map (N.add (a_base w)) (aseq (wK w) j)) ++ a_fwd w).
+Proof. exact fwd_only_by_publish. Qed.
+Print Assumptions c01_forwarded_only_by_publish.
+
+(* ---- (b) the exchange closes exactly with the in-order PUBACK ---- *)
+
+Theorem c01_open_exchanges : forall w, areach w -> wT w = false -> wQ w = wA w - wK w.
+Proof. exact open_exchanges. Qed.
+Print Assumptions c01_open_exchanges.
+
+Theorem c01_exchange_closes_only_by_puback : forall w l w', AInv w -> astep w l w' ->
+  wT w' = false -> wQ w' < wQ w ->
+  l = ALClientAck /\ wK w' = wK w + 1 /\ wQ w' + 1 = wQ w /\ wA w' = wA w /\ a_base w' = a_base w /\
+  In (a_base w + wK w) (a_fwd w) /\
+  exists q, a_b2c w = AAck (key1 (wK w)) (a_base w + wK w) :: q /\ a_b2c w' = q.
+Proof. exact exchange_closes_only_by_ack. Qed.
+Print Assumptions c01_exchange_closes_only_by_puback.
+
+Theorem c01_queue_changes_only_by_accept_puback_term : forall st st', ostep st st' ->
+  o_q1 st' <> o_q1 st ->
+  (exists x, o_q1 st' = o_q1 st ++ [x] /\ o_acc1 st' = o_acc1 st + 1 /\ o_acked st' = o_acked st)
+  \/ (exists x, o_q1 st = x :: o_q1 st' /\ o_acked st' = o_acked st + 1 /\ o_acc1 st' = o_acc1 st /\
+                o_store st' = store_del (o_store st) (key1 (o_acked st)))
+  \/ (o_term st' = true /\ o_q1 st' = []).
+Proof. exact exchange_pop_only_by_ack1. Qed.
+Print Assumptions c01_queue_changes_only_by_accept_puback_term.
+
+(* ---- (c) identifier safety across the 14-bit wrap, no reset livelock ---- *)
+
+Theorem c01_inflight_puback_window : forall w id x, areach w -> In (AAck id x) (a_b2c w) ->
+  exists n, (wK w <= n < wA w /\ id = key1 n /\ x = a_base w + n) /\
+            forall n', wK w <= n' < wA w -> id = key1 n' -> n' = n.
+Proof. exact inflight_ack_window. Qed.
+Print Assumptions c01_inflight_puback_window.
+
+Theorem c01_inflight_publish_window : forall w d id x, areach w -> In (APub d id x) (a_c2b w) ->
+  exists n, (wK w <= n < wA w /\ id = key1 n /\ x = a_base w + n) /\
+            forall n', wK w <= n' < wA w -> id = key1 n' -> n' = n.
+Proof. exact inflight_pub_window. Qed.
+Print Assumptions c01_inflight_publish_window.
+
+Theorem c01_pipeline : forall w, areach w -> a_on w = true ->
+  apend w = map (apk (a_base w)) (aseq (wK w) (wA w)).
+Proof. exact pipeline_acks. Qed.
+Print Assumptions c01_pipeline.
+
+Theorem c01_online_no_backlog : forall w, areach w -> a_on w = true -> wS w = wA w /\ wT w = false.
+Proof. exact online_no_backlog. Qed.
+Print Assumptions c01_online_no_backlog.
+
+Theorem c01_client_never_rejects : forall w w', areach w -> ~ astep w ALReject w'.
+Proof. exact alo_never_rejects. Qed.
+Print Assumptions c01_client_never_rejects.
+
+(* ---- (d) at least once and all exchanges closed when the faults stop ---- *)
+
+Theorem c01_good_step_measure : forall w l w', AInv w -> astep w l w' -> a_progress l = true ->
+  amu w = amu w' + 1.
+Proof. exact agood_step_measure. Qed.
+Print Assumptions c01_good_step_measure.
+
+Theorem c01_accept_step_measure : forall w w', AInv w -> astep w ALAccept w' -> amu w' = amu w + 2.
+Proof. exact aaccept_step_measure. Qed.
+Print Assumptions c01_accept_step_measure.
+
+Theorem c01_progress_enabled : forall w, wT w = false -> amu w <> 0 ->
+  exists l w', a_progress l = true /\ astep w l w'.
+Proof. exact aprogress_enabled. Qed.
+Print Assumptions c01_progress_enabled.
+
+Theorem c01_quiescent_complete : forall w, areach w -> wT w = false -> aquiescent w -> acomplete w.
+Proof. exact aquiescent_complete. Qed.
+Print Assumptions c01_quiescent_complete.
+
+Theorem c01_complete_at_least_once : forall w x, acomplete w -> x < a_base w + wA w ->
+  (1 <= count_occ N.eq_dec (a_fwd w) x)%nat.
+Proof. exact acomplete_at_least_once. Qed.
+Print Assumptions c01_complete_at_least_once.
+
+Theorem c01_good_run_bound : forall w p a w', areach w -> afrun w p a w' ->
+  amu w + 2 * N.of_nat a = amu w' + N.of_nat p.
+Proof. exact agood_run_bound. Qed.
+Print Assumptions c01_good_run_bound.
+
+Theorem c01_good_run_complete : forall w p a w', areach w -> wT w = false -> afrun w p a w' ->
+  (aquiescent w' \/ N.of_nat p = amu w + 2 * N.of_nat a) -> acomplete w'.
+Proof. exact agood_run_complete. Qed.
+Print Assumptions c01_good_run_complete.
+
+Theorem c01_good_run_exists : forall w, areach w -> wT w = false ->
+  exists w', afrun w (N.to_nat (amu w)) 0 w' /\ acomplete w'.
+Proof. exact agood_run_exists. Qed.
+Print Assumptions c01_good_run_exists.
+
+(* from every reachable state (also after Close, also mid-handshake): Restart, then amu good
+   steps: every message accepted so far is acknowledged and was forwarded at least once *)
+Theorem c01_restart_good_run_exists : forall w, areach w ->
+  exists w1 w', astep w ALRestart w1 /\ afrun w1 (N.to_nat (amu w1)) 0 w' /\ acomplete w' /\
+    a_base w' + wA w' = a_base w + wA w /\
+    forall x, x < a_base w + wA w -> In x (a_fwd w').
+Proof. exact restart_good_run_exists. Qed.
+Print Assumptions c01_restart_good_run_exists.
+
+Theorem c01_restart_keeps_window : forall w c', AInv w -> arestart (a_cl w) c' ->
+  l_acc c' - l_acked c' = wA w - wK w /\ l_term c' = false /\ l_q c' = wA w - wK w /\
+  (a_base w + wK w - l_acked c') + l_acked c' = a_base w + wK w.
+Proof. exact restart_keeps_window. Qed.
+Print Assumptions c01_restart_keeps_window.
+
+(* ---- the stepper and the concrete traces (non-vacuity; (e) duplicates) ---- *)
+
+Theorem c01_stepper_sound : forall w a w', aexec w a = Some w' -> exists l, astep w l w'.
+Proof. exact aexec_sound. Qed.
+Print Assumptions c01_stepper_sound.
+
+Theorem c01_duplicate_after_lost_puback :
+  exists w, arun (ainit 4) dup_trace = Some w /\ areach w /\ acomplete w /\
+    a_fwd w = [0; 0] /\ count_occ N.eq_dec (a_fwd w) 0 = 2%nat /\ ~ NoDup (a_fwd w).
+Proof. exact duplicate_after_lost_puback. Qed.
+Print Assumptions c01_duplicate_after_lost_puback.
+
+Theorem c01_retransmission_has_dup :
+  exists w, arun (ainit 4) [XReconnect; XAccept; XBreak; XReconnect] = Some w /\
+    a_c2b w = [APub true (key1 0) 0] /\
+  exists w', arun (ainit 4) [XReconnect; XAccept] = Some w' /\ a_c2b w' = [APub false (key1 0) 0].
+Proof. exact retransmission_has_dup. Qed.
+Print Assumptions c01_retransmission_has_dup.
+
+Theorem c01_delete_fault_restart_complete :
+  exists w, arun (ainit 4) delete_fault_trace = Some w /\ areach w /\ acomplete w /\
+    a_fwd w = [1; 1; 0].
+Proof. exact delete_fault_restart_complete. Qed.
+Print Assumptions c01_delete_fault_restart_complete.
+
+Theorem c01_resend_fault_trace :
+  exists w, arun (ainit 4) resend_fault_actions = Some w /\ areach w /\ acomplete w /\
+    a_base w = 2 /\ a_fwd w = [2; 2; 1; 1; 0].
+Proof. exact resend_fault_trace. Qed.
+Print Assumptions c01_resend_fault_trace.
+
+Theorem c01_close_keeps_message :
+  exists w, arun (ainit 4) [XReconnect; XAccept; XClose] = Some w /\
+    wQ w = 0 /\ wT w = true /\ wK w = 0 /\ wA w = 1 /\ aexec w XReconnect = None /\
+  exists w', arun w [XRestart (mkAcl 0 1 1 4 1 false); XReconnect; XBroker; XClient] = Some w' /\
+    acomplete w' /\ a_fwd w' = [0].
+Proof. exact close_keeps_message. Qed.
+Print Assumptions c01_close_keeps_message.
